@@ -231,7 +231,7 @@ def cons_truth(p, op):
             msg = f"threshold-assume: |{_short(p0)}| > {float(a):.3g} (sliver below a drop threshold excluded)"
             if msg not in P.assumptions:
                 P.assumptions.append(msg)
-            if p0.key() in ctx.__dict__.get("nonneg", ()):
+            if p0.key() in ctx.__dict__.get("nonneg", ()) or _syntactic_nonneg(p0):
                 # p0 is |z|^2 by construction: only the upper alternative exists
                 P.pc.append(hi)
                 return _const_truth(1, op)
@@ -284,6 +284,16 @@ def compare(a, b, op):
     if not d.is_real():
         raise TypeError("ordering comparison of complex symbolic values")
     return cons_truth(d, op)
+
+
+def _syntactic_nonneg(p):
+    """single monomial with positive coefficient over variables known to be >= 0"""
+    if len(p.t) != 1:
+        return False
+    (k, vs), c = next(iter(p.t.items()))
+    ctx = num.ctx()
+    return k == 0 and c > 0 and all(ctx.kind[v] == "real" and ((ctx.info[v].get("lo") is not None and ctx.info[v]["lo"] >= 0)
+                                                                 or int(e) % 2 == 0) for v, e in vs)
 
 
 def _known_const(p):
@@ -367,8 +377,16 @@ def sym_sqrt(x):
             return Sym(s2h.scale(F(sn, sd)))
     if not p.is_real():
         raise SymEscape("sqrt of a non-real symbolic value")
-    # monomial perfect squares with a known-positive root
+    # monomial perfect squares with a known non-negative root
     ctx = num.ctx()
+    if len(p.t) == 1:
+        (k, vs), c = next(iter(p.t.items()))
+        import math
+        if k == 0 and c > 0 and all(ctx.kind[v] == "real" and F(e).denominator == 1 and int(e) % 2 == 0 and
+                                    ctx.info[v].get("lo") is not None and ctx.info[v]["lo"] >= 0 for v, e in vs):
+            sn, sd = math.isqrt(c.numerator), math.isqrt(c.denominator)
+            if sn * sn == c.numerator and sd * sd == c.denominator:
+                return Sym(Poly({(0, tuple((v, int(e) // 2) for v, e in vs)): F(sn, sd)}))
     tab = ctx.__dict__.setdefault(_SQRT_TABLE_KEY, {})
     key = p.key()
     if key in tab:
@@ -389,7 +407,74 @@ def declare_root(square_poly, root_poly):
     num.ctx().__dict__.setdefault("_known_roots", {})[square_poly.key()] = root_poly
 
 
+def expand_radicals(p):
+    """rewrite positive even powers of sqrt variables by their radicands (v^2 -> radicand)"""
+    ctx = num.ctx()
+    sq = ctx.__dict__.get("_sqrt_of_var")
+    if not sq:
+        return p
+    for _ in range(64):
+        out, changed = {}, False
+        acc = Poly()
+        for (k, vs), c in p.t.items():
+            hit = None
+            for v, e in vs:
+                if v in sq and e >= 2 and (hit is None or v > hit[0]):
+                    hit = (v, e)        # latest-created radical first: its radicand may contain earlier ones
+            if hit is None:
+                n = out.get((k, vs), 0) + c
+                if n == 0:
+                    out.pop((k, vs), None)
+                else:
+                    out[(k, vs)] = n
+                continue
+            v, e = hit
+            rest = tuple((a, b - 2 if a == v else b) for a, b in vs if not (a == v and b == 2))
+            acc = acc.add(Poly({(k, rest): c}).mul(sq[v]))
+            changed = True
+        p = Poly(out).add(acc)
+        if not changed:
+            break
+    return p
+
+
+def collapse_radicals(q):
+    """if q = const * v^e * radicand(v) for a sqrt variable v, return const * v^(e+2)"""
+    ctx = num.ctx()
+    sq = ctx.__dict__.get("_sqrt_of_var")
+    if not sq or not q.t:
+        return q
+    for v, r in sq.items():
+        if not r.t:
+            continue
+        groups = {}
+        for (k, vs), c in q.t.items():
+            e = 0
+            rest = []
+            for a, b in vs:
+                if a == v:
+                    e = b
+                else:
+                    rest.append((a, b))
+            groups.setdefault(e, {})[(k, tuple(rest))] = c
+        if len(groups) != 1:
+            continue
+        (e, cof), = groups.items()
+        cof = Poly(cof)
+        m0 = next(iter(r.t))
+        if m0 not in cof.t:
+            continue
+        ratio = cof.t[m0] / r.t[m0]
+        if cof.sub(r.scale(ratio)).is_zero():
+            ne = e + 2
+            return Poly({(0, ((v, ne),) if ne else ()): ratio})
+    return q
+
+
 def fresh_inverse(q):
+    q2 = collapse_radicals(q)
+    if q2 is not q:
+        return num.poly_inverse(q2)
     ctx = num.ctx()
     tab = ctx.__dict__.setdefault("_inv_table", {})
     key = q.key()
